@@ -327,7 +327,7 @@ func (p *Path) decide(c *Term) bool {
 		if ff == Unknown {
 			ff = Sat
 		}
-		p.incon = append(p.incon, "branch feasibility unknown")
+		p.incon = append(p.incon, "branch feasibility unknown ["+p.choiceString()+"]")
 	}
 	setModel := func(m map[*Term]uint64) {
 		if m != nil {
